@@ -598,8 +598,9 @@ class _AttributeListBase(_AttributeBase):
     ) -> list[Any]:
         xml_value = None if node is None else node.attrib.get(self._attribute_name)
         if xml_value is not None:
-            split_result = xml_value.split(' ')
-            return [self._converter.elem_to_py(val) for val in split_result if val]
+            # items of a xs:list are separated by any white space (a tab or line break can get here as character reference)
+            split_result = xml_value.split()
+            return [self._converter.elem_to_py(val) for val in split_result]
         return []
 
     def update_xml_value(self, instance: Any, node: xml_utils.LxmlElement):
